@@ -16,6 +16,10 @@ CLAIMED = {
   "text": "Bounded symbolic model checking of the real trie (TryUpdate/TryDelete/TryGet/Hash/Commit/NodeDatabase.Commit/reopen, hasher, node codec, hex-prefix encoding) against an independent in-harness transcription of the Yellow Paper root definition: for every history within the stated bounds and every value byte, reads return the last value written and the root equals the specification root; encoding lemmas for every nibble string within bounds.",
   "note": "Trusted: gosym and its models, z3, Keccak as an injective uninterpreted function on symbolic input. Key shapes are a fixed set of six (prefix relations, shared prefixes); histories are short (2, thorough 3).",
  },
+ "C11": {
+  "text": "Bounded symbolic model checking of one EVM instruction step through the real EVMInterpreter.Run for every opcode byte, operand magnitude class, gas limit and read-only flag (no host panic feasible, gas only decreases), of the call/create family with symbolic callee/value/gas, of the stack-bound lemma (each operation's declared maxStack equals its real stack effect), and exact lemmas for the gas/memory arithmetic kernels over all 64-bit arguments.",
+  "note": "Trusted: gosym and its models, z3. Whole-program termination follows from the per-step results by induction (argued in DESIGN.md, not solved). Precompile cryptographic cores are stubbed. All Proposal forks active.",
+ },
 }
 PENDING = "check not built yet in this session (planned, see DESIGN.md section 5)"
 NA = {
